@@ -34,6 +34,14 @@ package msgpipeline
 // runs and must be shown the sender / recipients / body of ITS message, and the same transactions
 // run one after the other and in another interleaving must show the same.
 //
+// Round 9: the DMARC part of a run op may get a scripted DNS world (op token `w=`, see c06World:
+// where the From domain sits, what the resolver answers at _dmarc.<From domain> and at
+// _dmarc.<organizational domain>, whether the identifiers are aligned); the dmarc field of the op is
+// what RFC 7489 6.6.3 discovery yields for that world, computed by c06World.outcome (not by
+// internal/dmarc) - the monitor's demands (flag at every target / DATA refused) follow from it.
+// Targets of kind q<n|r> are REAL target.queue objects (zz_verif_c06_queue_test.go) in front of the
+// recording target: the flag oracle is evaluated at the target behind the queue.
+//
 //   T2: the op line goes to the Lean model (Model/CheckRunner.lean); command outcomes, per-recipient
 //       results, quarantine flag, hand-offs seen by the targets and the per-state call logs are compared.
 //   T3: an oracle written from the property statement evaluates the script and the routing directly
@@ -47,7 +55,9 @@ import (
 	"errors"
 	"fmt"
 	"io"
+	"net"
 	"os"
+	"runtime"
 	"sort"
 	"strconv"
 	"strings"
@@ -459,7 +469,169 @@ func c06ParseMF(tok string) (*c06MF, error) {
 	return m, nil
 }
 
+// ---------------------------------------------------------------- the DNS world of the DMARC part (op token w=)
+
+// c06World: what the resolver answers at the two names RFC 7489 section 6.6.3 looks at, where the
+// RFC5322.From domain sits, and whether the authenticated identifiers are aligned with it.
+//
+//	w=<from>/<answer at _dmarc.<From domain>>/<answer at _dmarc.example.org>/<align>
+//	from    o  From: someone@example.org (the organizational domain itself; first answer is `=`)
+//	        s  From: someone@mail.example.org
+//	        d  From: someone@a.mail.example.org (_dmarc.mail.example.org publishes p=reject: RFC 7489
+//	           looks at the From domain and at the organizational domain, never in between)
+//	answer  -  no such name | 0  the name exists, no TXT record | T  temporary failure (SERVFAIL) |
+//	        `.`-separated TXT records: x `v=spf1 -all`, y wildcard text, or <p><sp> a DMARC record
+//	        with p, sp in n(one) q(uarantine) r(eject), sp also `-` (absent)
+//	align   f  SPF and DKIM fail | m  both pass for an unrelated domain (not aligned) |
+//	        a  a passing DKIM signature of example.org (aligned, relaxed mode)
+type c06World struct {
+	from  byte
+	sub   string
+	org   string
+	align byte
+}
+
+func (w *c06World) String() string {
+	return "w=" + string(w.from) + "/" + w.sub + "/" + w.org + "/" + string(w.align)
+}
+
+func (w *c06World) fromDomain() string {
+	if w == nil {
+		return "example.org"
+	}
+	switch w.from {
+	case 's':
+		return "mail.example.org"
+	case 'd':
+		return "a.mail.example.org"
+	}
+	return "example.org"
+}
+
+func c06AnswerOK(a string) bool {
+	if a == "-" || a == "0" || a == "T" {
+		return true
+	}
+	for _, rec := range strings.Split(a, ".") {
+		switch {
+		case rec == "x" || rec == "y":
+		case len(rec) == 2 && strings.IndexByte("nqr", rec[0]) >= 0 && strings.IndexByte("nqr-", rec[1]) >= 0:
+		default:
+			return false
+		}
+	}
+	return true
+}
+
+func c06ParseWorld(tok string) (*c06World, error) {
+	p := strings.Split(strings.TrimPrefix(tok, "w="), "/")
+	if !strings.HasPrefix(tok, "w=") || len(p) != 4 || len(p[0]) != 1 || len(p[3]) != 1 ||
+		strings.IndexByte("osd", p[0][0]) < 0 || strings.IndexByte("fma", p[3][0]) < 0 {
+		return nil, errors.New("bad w= token")
+	}
+	w := &c06World{from: p[0][0], sub: p[1], org: p[2], align: p[3][0]}
+	if (w.from == 'o') != (w.sub == "=") || (w.sub != "=" && !c06AnswerOK(w.sub)) || !c06AnswerOK(w.org) {
+		return nil, errors.New("bad w= token")
+	}
+	return w, nil
+}
+
+// c06TXT: the text of one record.
+func c06TXT(rec string) string {
+	switch rec {
+	case "x":
+		return "v=spf1 -all"
+	case "y":
+		return "wildcard text record, v=DMARC1 is not how it starts"
+	}
+	word := map[byte]string{'n': "none", 'q': "quarantine", 'r': "reject"}
+	s := "v=DMARC1; p=" + word[rec[0]]
+	if rec[1] != '-' {
+		s += "; sp=" + word[rec[1]]
+	}
+	return s
+}
+
+// zones: the scripted resolver.
+func (w *c06World) zones() map[string]mockdns.Zone {
+	z := map[string]mockdns.Zone{}
+	put := func(name, a string) {
+		switch a {
+		case "-", "=":
+		case "0":
+			z[name] = mockdns.Zone{}
+		case "T":
+			z[name] = mockdns.Zone{Err: &net.DNSError{Err: "server misbehaving", Name: name, IsTemporary: true}}
+		default:
+			var txt []string
+			for _, rec := range strings.Split(a, ".") {
+				txt = append(txt, c06TXT(rec))
+			}
+			z[name] = mockdns.Zone{TXT: txt}
+		}
+	}
+	put("_dmarc."+w.fromDomain()+".", w.sub)
+	put("_dmarc.example.org.", w.org)
+	if w.from == 'd' {
+		z["_dmarc.mail.example.org."] = mockdns.Zone{TXT: []string{"v=DMARC1; p=reject"}}
+	}
+	return z
+}
+
+// outcome: what the DMARC part has to do with the message, computed here from the scripted world
+// by the steps of RFC 7489 section 6.6.3 (not by internal/dmarc): query the From domain, drop what
+// is not a DMARC record; nothing left and the organizational domain is another name - query that,
+// drop again; exactly one record left - that is the published policy (p; sp when it was found at
+// the organizational domain for a subdomain and has one), else there is none.  A temporary failure
+// of a query that is made refuses the message (temporary code); a message whose identifiers are
+// aligned passes whatever is published.
+func (w *c06World) outcome() string {
+	policies := func(a string) (recs []string, temp bool) {
+		switch a {
+		case "-", "0":
+			return nil, false
+		case "T":
+			return nil, true
+		}
+		for _, rec := range strings.Split(a, ".") {
+			if len(rec) == 2 {
+				recs = append(recs, rec)
+			}
+		}
+		return recs, false
+	}
+	first := w.sub
+	if w.from == 'o' {
+		first = w.org
+	}
+	recs, temp := policies(first)
+	if temp {
+		return "rej"
+	}
+	viaOrg := false
+	if len(recs) == 0 && w.from != 'o' {
+		viaOrg = true
+		if recs, temp = policies(w.org); temp {
+			return "rej"
+		}
+	}
+	if len(recs) != 1 || w.align == 'a' {
+		return "pass"
+	}
+	pol := recs[0][0]
+	if viaOrg && recs[0][1] != '-' {
+		pol = recs[0][1]
+	}
+	return map[byte]string{'n': "pass", 'q': "quar", 'r': "rej"}[pol]
+}
+
+// VerifC06NewQueue is set by zz_verif_c06_queue_test.go (package msgpipeline_test - internal/target/queue
+// imports this package): a REAL target.queue (NewQueue + Init, own spool directory dir, max_tries 1)
+// in front of the downstream target; idle: the spool is empty; close: Queue.Close.
+var VerifC06NewQueue func(dir string, down module.DeliveryTarget) (q module.DeliveryTarget, idle func() bool, close func() error, err error)
+
 type c06Case struct {
+	world   *c06World // the DNS world behind the dmarc field (nil: one record at _dmarc.example.org, From: example.org, nothing aligned)
 	mode    string
 	dmarc   string
 	global  []int
@@ -563,6 +735,9 @@ func (c *c06Case) op() string {
 		if c.dirs != nil {
 			f = append(f, c.dirs.String())
 		}
+		if c.world != nil {
+			f = append(f, c.world.String())
+		}
 		return "C06 run " + strings.Join(f, " ")
 	}
 	q := "-"
@@ -623,8 +798,8 @@ func c06Parse(op string) (c *c06Case, err error) {
 			return nil, err
 		}
 		return c, c06ModsOK(c)
-	case t[1] == "run" && len(t) >= 12 && len(t) <= 16:
-		// [Q] [m=...] [f=<sender form>] [nm=<g|s|gs>] [d=<directives>]
+	case t[1] == "run" && len(t) >= 12 && len(t) <= 17:
+		// [Q] [m=...] [f=<sender form>] [nm=<g|s|gs>] [d=<directives>] [w=<DNS world>]
 		rest := t[11:]
 		c, err = c06ParseFields(t[2:11])
 		if err != nil {
@@ -649,6 +824,14 @@ func c06Parse(op string) (c *c06Case, err error) {
 		if len(rest) >= 1 && strings.HasPrefix(rest[0], "d=") && err == nil {
 			c.dirs, err = c06ParseDirs(rest[0])
 			rest = rest[1:]
+		}
+		if len(rest) >= 1 && strings.HasPrefix(rest[0], "w=") && err == nil {
+			c.world, err = c06ParseWorld(rest[0])
+			rest = rest[1:]
+			// the dmarc field is what the world publishes for this message
+			if err == nil && c.world.outcome() != c.dmarc {
+				err = errors.New("the dmarc field is not what the DNS world yields")
+			}
 		}
 		if len(rest) != 0 || err != nil {
 			return nil, errors.New("bad trailing tokens of a C06 run op")
@@ -725,8 +908,8 @@ func c06NestOK(c *c06Case) error {
 		return errors.New("nest: inner DMARC reject")
 	}
 	for _, k := range in.tgts {
-		if k == "px" {
-			return errors.New("nest: px inside the inner pipeline")
+		if k == "px" || k[0] == 'q' {
+			return errors.New("nest: px / queue inside the inner pipeline")
 		}
 	}
 	for _, s := range in.scripts {
@@ -758,6 +941,11 @@ func c06ParseFields(t []string) (c *c06Case, err error) {
 		c.blocks = append(c.blocks, c06ParseBlock(b))
 	}
 	c.tgts = strings.Split(t[7], ",")
+	for _, k := range c.tgts {
+		if len(k) != 2 || strings.IndexByte("apq", k[0]) < 0 || strings.IndexByte("nrx", k[1]) < 0 || (k[1] == 'x' && k != "px") {
+			panic("bad target kind " + k)
+		}
+	}
 	for _, r := range strings.Split(t[8], ",") {
 		p := strings.Split(r, ":")
 		id, _ := strconv.Atoi(p[0])
@@ -1018,14 +1206,14 @@ func (s *c06State) Close() error {
 // c06AuthCheck is not part of the script: it only supplies failing SPF and DKIM results at the
 // body stage so that the real DMARC verifier has something to evaluate (without them the result
 // is "none" whatever the published policy says).
-type c06AuthCheck struct{}
-type c06AuthState struct{}
+type c06AuthCheck struct{ align byte } // align: c06World.align (0 = 'f')
+type c06AuthState struct{ align byte }
 
 func (c06AuthCheck) Init(*config.Map) error { return nil }
 func (c06AuthCheck) Name() string           { return "verif_auth" }
 func (c06AuthCheck) InstanceName() string   { return "verif_auth" }
-func (c06AuthCheck) CheckStateForMsg(ctx context.Context, m *module.MsgMetadata) (module.CheckState, error) {
-	return c06AuthState{}, nil
+func (c c06AuthCheck) CheckStateForMsg(ctx context.Context, m *module.MsgMetadata) (module.CheckState, error) {
+	return c06AuthState{align: c.align}, nil
 }
 func (c06AuthState) CheckConnection(ctx context.Context) module.CheckResult {
 	return module.CheckResult{}
@@ -1036,7 +1224,21 @@ func (c06AuthState) CheckSender(ctx context.Context, from string) module.CheckRe
 func (c06AuthState) CheckRcpt(ctx context.Context, to string) module.CheckResult {
 	return module.CheckResult{}
 }
-func (c06AuthState) CheckBody(ctx context.Context, h textproto.Header, b buffer.Buffer) module.CheckResult {
+func (s c06AuthState) CheckBody(ctx context.Context, h textproto.Header, b buffer.Buffer) module.CheckResult {
+	switch s.align {
+	case 'a':
+		// a passing signature of the organizational domain: aligned (relaxed mode) with every From domain of the worlds
+		return module.CheckResult{AuthResult: []authres.Result{
+			&authres.DKIMResult{Value: authres.ResultPass, Domain: "example.org", Identifier: "@example.org"},
+			&authres.SPFResult{Value: authres.ResultFail, From: "example.org", Helo: "mx.example.org"},
+		}}
+	case 'm':
+		// everything passes - for somebody else's domain
+		return module.CheckResult{AuthResult: []authres.Result{
+			&authres.DKIMResult{Value: authres.ResultPass, Domain: "other.example.net", Identifier: "@other.example.net"},
+			&authres.SPFResult{Value: authres.ResultPass, From: "other.example.net", Helo: "mx.other.example.net"},
+		}}
+	}
 	return module.CheckResult{AuthResult: []authres.Result{
 		&authres.DKIMResult{Value: authres.ResultFail, Domain: "example.org", Identifier: "@example.org"},
 		&authres.SPFResult{Value: authres.ResultFail, From: "example.org", Helo: "mx.example.org"},
@@ -1174,6 +1376,7 @@ type c06Target struct {
 	id       int
 	partial  bool
 	refuseQ  bool
+	behindQ  bool // the pipeline's target is a REAL queue, this is the target the queue delivers to
 	mu       sync.Mutex
 	dlvs     []*c06Dlv
 	startedN int
@@ -1305,7 +1508,8 @@ type c06Info struct {
 func (in *c06Info) dl(t *c06Target) []*c06Dlv {
 	var out []*c06Dlv
 	for _, d := range t.dlvs {
-		if in.txID == "" || d.meta == nil || d.meta.ID == in.txID {
+		// (a queue gives every attempt an id of its own: <id of the message>-<time of the attempt>)
+		if in.txID == "" || d.meta == nil || d.meta.ID == in.txID || (t.behindQ && strings.HasPrefix(d.meta.ID, in.txID+"-")) {
 			out = append(out, d)
 		}
 	}
@@ -1343,6 +1547,48 @@ type c06Pipe struct {
 	tgts     []*c06Target
 	checks   []module.Check
 	acts     *c06Acts // multi ops: what the checks' Init made of the action directives
+	queues   []*c06Queue
+}
+
+// c06Queue: a real target.queue of the case (target kind q<n|r>).
+type c06Queue struct {
+	tgt   module.DeliveryTarget
+	idle  func() bool
+	close func() error
+	dir   string
+}
+
+// c06SpoolRoot: where the spool directories of the queues live (memory-backed when there is one: the
+// queue syncs three files per message).
+func c06SpoolRoot() string {
+	if st, err := os.Stat("/dev/shm"); err == nil && st.IsDir() {
+		return "/dev/shm"
+	}
+	return os.TempDir()
+}
+
+// drain: every queue made its one attempt (or the delivery was aborted) - the spool is empty -,
+// then the queues are closed (Close waits for the delivery goroutines) and the spools removed.
+// No verdict depends on the clock: the wait ends when the spool is empty; the limit only turns a
+// queue that never finishes into an error of the case.
+func (pp *c06Pipe) drain() (stuck bool) {
+	for _, q := range pp.queues {
+		for i := 0; !q.idle(); i++ {
+			if i > 600000 {
+				stuck = true
+				break
+			}
+			if i < 200 {
+				runtime.Gosched()
+			} else {
+				time.Sleep(100 * time.Microsecond)
+			}
+		}
+		q.close()
+		os.RemoveAll(q.dir)
+	}
+	pp.queues = nil
+	return stuck
 }
 
 func (r *c06Rec) setCmd(k int) { r.mu.Lock(); r.cmd = k; r.mu.Unlock() }
@@ -1371,9 +1617,28 @@ func c06Build(c *c06Case, routes map[string]int, nested module.DeliveryTarget, c
 		}
 		return out
 	}
+	front := map[int]module.DeliveryTarget{}
 	for i, k := range c.tgts {
 		// the slot of a nested pipeline stays in the list (target ids are positions) and never gets a delivery
-		pp.tgts = append(pp.tgts, &c06Target{id: i, partial: k[0] == 'p', refuseQ: k[1] == 'r'})
+		t := &c06Target{id: i, partial: k[0] == 'p', refuseQ: k[1] == 'r', behindQ: k[0] == 'q'}
+		pp.tgts = append(pp.tgts, t)
+		front[i] = t
+		if k[0] == 'q' {
+			// a REAL queue in front of the recording target
+			if VerifC06NewQueue == nil {
+				panic("the queue constructor hook is not set (zz_verif_c06_queue_test.go missing?)")
+			}
+			dir, err := os.MkdirTemp(c06SpoolRoot(), "verif_c06_q")
+			if err != nil {
+				panic(err)
+			}
+			qt, idle, cl, err := VerifC06NewQueue(dir, t)
+			if err != nil {
+				panic(err)
+			}
+			pp.queues = append(pp.queues, &c06Queue{tgt: qt, idle: idle, close: cl, dir: dir})
+			front[i] = qt
+		}
 	}
 	blocks := make([]*rcptBlock, len(c.blocks))
 	for i, b := range c.blocks {
@@ -1382,7 +1647,7 @@ func c06Build(c *c06Case, routes map[string]int, nested module.DeliveryTarget, c
 			if c.tgts[t] == "px" {
 				rb.targets = append(rb.targets, nested)
 			} else {
-				rb.targets = append(rb.targets, pp.tgts[t])
+				rb.targets = append(rb.targets, front[t])
 			}
 		}
 		blocks[i] = rb
@@ -1398,17 +1663,26 @@ func c06Build(c *c06Case, routes map[string]int, nested module.DeliveryTarget, c
 	decoySc[99] = c06Script{conn: c06V{'1', 'r'}, sender: c06V{'1', 'r'}, body: c06V{'1', 'r'}, rcpt: map[int]c06V{}}
 	decoy := &c06Check{id: 99, sh: &c06Shared{any: &c06TxCtx{id: "decoy", scripts: decoySc, rec: pp.decoyRec, anyArg: true}}}
 	zones := map[string]mockdns.Zone{}
-	switch c.dmarc {
-	case "pass":
+	auth := c06AuthCheck{}
+	if c.world != nil {
+		if c.world.outcome() != c.dmarc {
+			panic("the dmarc field is not what the DNS world yields")
+		}
+		zones = c.world.zones()
+		auth.align = c.world.align
+	}
+	switch {
+	case c.world != nil:
+	case c.dmarc == "pass":
 		zones["_dmarc.example.org."] = mockdns.Zone{TXT: []string{"v=DMARC1; p=none"}}
-	case "quar":
+	case c.dmarc == "quar":
 		zones["_dmarc.example.org."] = mockdns.Zone{TXT: []string{"v=DMARC1; p=quarantine"}}
-	case "rej":
+	case c.dmarc == "rej":
 		zones["_dmarc.example.org."] = mockdns.Zone{TXT: []string{"v=DMARC1; p=reject"}}
 	}
 	globalChecks := pick(c.global)
 	if c.dmarc != "off" {
-		globalChecks = append(globalChecks, c06AuthCheck{})
+		globalChecks = append(globalChecks, auth)
 	}
 	pp.p = &MsgPipeline{
 		msgpipelineCfg: msgpipelineCfg{
@@ -1529,7 +1803,7 @@ func (tx *c06Tx) data() {
 	ctx := context.Background()
 	hdr := textproto.Header{}
 	hdr.Add("Subject", "verif")
-	hdr.Add("From", "<someone@example.org>")
+	hdr.Add("From", "<someone@"+c.world.fromDomain()+">")
 	body := buffer.MemoryBuffer{Slice: []byte(tx.ctx.body)}
 	switch {
 	case !tx.anyAcc:
@@ -1621,6 +1895,10 @@ func (tx *c06Tx) data() {
 func (tx *c06Tx) finish() {
 	tx.phase = 2
 	info := tx.info
+	// the real queues of the case make their attempt on their own goroutines: wait for them
+	if tx.pp.drain() {
+		info.bodyKind = "other:a queue did not finish its attempt"
+	}
 	info.finalQ = tx.meta.Quarantine
 	if tx.pp.decoyRec != nil {
 		info.decoyHits = len(tx.pp.decoyRec.calls)
@@ -1828,6 +2106,11 @@ func c06Obs(in *c06Info) string {
 					took = true
 				}
 			}
+			if t.behindQ {
+				// the target behind a real queue: the queue took the message from the pipeline; what is
+				// compared is the flag the queue showed its own target when it made the attempt
+				took = true
+			}
 			if !took || (c.mode == "smtp" && in.bodyKind != "ok") {
 				continue
 			}
@@ -1909,6 +2192,16 @@ func c06Odd(c *c06Case) bool {
 			if v.proper() == "?" {
 				return true
 			}
+		}
+	}
+	return false
+}
+
+// c06Routed: an accepted RCPT command belongs to a block that lists target t.
+func c06Routed(c *c06Case, rcptRef []bool, t int) bool {
+	for k, r := range c.rcpts {
+		if k < len(rcptRef) && !rcptRef[k] && c06Has(c.blocks[r.blk].targets, t) {
+			return true
 		}
 	}
 	return false
@@ -2064,7 +2357,7 @@ func c06Monitor(out *vh.Out, op string, in *c06Info) {
 					out.Violation("C06/reject-not-enforced", op, "an applicable check (or the DMARC policy) rejects the message at the body stage, DATA result: "+in.bodyKind)
 				}
 				if delivered {
-					out.Violation("C06/rejected-message-reached-target", op, "a target was given the body of a message that a check rejects")
+					out.Violation("C06/rejected-message-reached-target", op, "a target was given the body of a message that a check (or the DMARC policy) rejects")
 				}
 			}
 			if mustQ && !mustBody {
@@ -2078,13 +2371,20 @@ func c06Monitor(out *vh.Out, op string, in *c06Info) {
 					sigF, sigR = "C06/nested-quarantine-not-flagged", "C06/nested-quarantined-message-relayed"
 				}
 				for _, t := range in.tgts {
+					hop := where
+					if t.behindQ {
+						hop = fmt.Sprintf(" (the target behind the queue that is target %d of the pipeline: queue hop)", t.id) + where
+					}
 					for _, d := range in.dl(t) {
 						if d.bodySeen && !d.bodyQ {
-							out.Violation(sigF, op, fmt.Sprintf("%s, target %d%s saw the message without the flag", why, t.id, where))
+							out.Violation(sigF, op, fmt.Sprintf("%s, target %d%s saw the message without the flag", why, t.id, hop))
 						}
 						if d.bodySeen && d.t.refuseQ && len(d.accepted) > 0 {
-							out.Violation(sigR, op, fmt.Sprintf("%s, target %d%s (refuses quarantined messages) took the message", why, t.id, where))
+							out.Violation(sigR, op, fmt.Sprintf("%s, target %d%s (refuses quarantined messages) took the message", why, t.id, hop))
 						}
+					}
+					if t.behindQ && in.bodyKind == "ok" && len(in.dl(t)) == 0 && c06Routed(c, in.rcptRef, t.id) {
+						out.Violation("C06/unexpected-error", op, fmt.Sprintf("the queue that is target %d took the message and never showed it to its target", t.id))
 					}
 				}
 			}
@@ -2663,6 +2963,45 @@ func c06DirsStats(out *vh.Out, d *c06Dirs, refused bool) {
 	}
 }
 
+// c06Round9Stats: the DNS worlds and the queue hops of the run ops.
+func c06Round9Stats(out *vh.Out, in *c06Info) {
+	c := in.c
+	if w := c.world; w != nil {
+		out.Stat("world")
+		out.Stat("world.from-" + string(w.from) + ".at-from-" + c06AnswerClass(w.sub) + ".at-org-" + c06AnswerClass(w.org))
+		out.Stat("world.align-" + string(w.align) + ".outcome-" + c.dmarc)
+		if w.from != 'o' && c06AnswerClass(w.sub) == "stray-only" && (c.dmarc == "quar" || c.dmarc == "rej") {
+			out.Stat("world.stray-at-from.policy-at-org." + c.dmarc + ".data-" + in.bodyKind)
+		}
+	}
+	for _, t := range in.tgts {
+		if !t.behindQ {
+			continue
+		}
+		out.Stat("queue.target")
+		for _, d := range in.dl(t) {
+			if !d.bodySeen {
+				continue
+			}
+			k := "queue.hop.flag-" + strconv.FormatBool(d.bodyQ)
+			if t.refuseQ {
+				k += ".refusing-target"
+			}
+			out.Stat(k)
+			if d.bodyQ && !c.q0 && c.dmarc != "quar" {
+				// which stage raised the flag (first one found)
+				for ci := range c.scripts {
+					for _, call := range in.rec.calls {
+						if call.check == ci && call.eff == "q" {
+							out.Stat("queue.hop.flagged-by-stage-" + call.stage[:1])
+						}
+					}
+				}
+			}
+		}
+	}
+}
+
 func c06One(out *vh.Out, c *c06Case) *c06Info {
 	op := c.op()
 	in := c06Run(c)
@@ -2674,6 +3013,7 @@ func c06One(out *vh.Out, c *c06Case) *c06Info {
 	c06DirsMonitor(out, op, c.dirs)
 	c06MonitorNest(out, op, in)
 	c06Stats(out, in)
+	c06Round9Stats(out, in)
 	return in
 }
 
@@ -2845,6 +3185,11 @@ func c06ParseMulti(op string) (m *c06Multi, err error) {
 		return nil, errors.New("not a C06 multi op")
 	}
 	m = &c06Multi{dmarc: t[2], global: c06ParseIds(t[3]), tgts: strings.Split(t[4], ","), dirs: dirs}
+	for _, k := range m.tgts {
+		if k != "an" && k != "ar" && k != "pn" && k != "pr" {
+			return nil, errors.New("multi: target kind " + k)
+		}
+	}
 	for _, s := range strings.Split(t[5], "_") {
 		p := strings.Split(s, "~")
 		if len(p) < 2 || len(p) > 3 || (len(p) == 3 && p[2] != "n") {
@@ -3288,7 +3633,14 @@ func c06Gen(r *vh.Rng, big bool) *c06Case {
 	c.form = c06GenForm(r)
 	c06GenNoMod(r, c)
 	if r.Chance(14) {
+		c06GenQueue(r, c)
+	}
+	if r.Chance(14) {
 		c06GenDup(r, c)
+	}
+	if r.Chance(22) {
+		// last of those that choose the DMARC outcome
+		c06GenWorld(r, c)
 	}
 	for i := range c.rcpts {
 		if r.Chance(6) {
@@ -3300,6 +3652,155 @@ func c06Gen(r *vh.Rng, big bool) *c06Case {
 		c06GenDirsUse(r, c.dirs, c)
 	}
 	return c
+}
+
+// c06GenWorld: the DMARC part of the case gets a scripted DNS world (the dmarc field becomes what
+// the world yields for the message). Favoured: the From domain is a subdomain whose own _dmarc
+// name has no DMARC record - no such name, an empty answer, or only TXT records that are not DMARC
+// records (a wildcard, an SPF record) - and the policy is published at the organizational domain.
+func c06GenWorld(r *vh.Rng, c *c06Case) {
+	pol := func() string {
+		return r.Pick("n", "q", "q", "r", "r") + r.Pick("-", "-", "-", "n", "q", "r")
+	}
+	stray := func() string { return r.Pick("x", "y") }
+	onePolicy := func() string {
+		if r.Chance(60) {
+			return pol()
+		}
+		l := []string{stray(), pol()}
+		if r.Chance(50) {
+			l[0], l[1] = l[1], l[0]
+		}
+		if r.Chance(30) {
+			l = append(l, stray())
+		}
+		return strings.Join(l, ".")
+	}
+	noPolicy := func() string {
+		switch r.Intn(5) {
+		case 0:
+			return "-"
+		case 1:
+			return "0"
+		case 2:
+			return stray() + "." + stray()
+		}
+		return stray()
+	}
+	answer := func() string {
+		switch x := r.Intn(100); {
+		case x < 30:
+			return noPolicy()
+		case x < 40:
+			return "T"
+		case x < 85:
+			return onePolicy()
+		}
+		l := []string{pol(), pol()}
+		if r.Chance(30) {
+			l = append(l, stray())
+		}
+		return strings.Join(l, ".")
+	}
+	w := &c06World{from: 'o', sub: "=", align: 'f'}
+	switch x := r.Intn(100); {
+	case x < 45:
+		w.from = r.Pick("s", "s", "d")[0]
+		w.sub = noPolicy()
+		w.org = onePolicy()
+		if r.Chance(50) {
+			// the DMARC part alone decides: no check has anything to say, the message comes unflagged
+			c.q0 = false
+			for i := range c.scripts {
+				c.scripts[i] = c06Script{conn: c06V{'0', 'i'}, sender: c06V{'0', 'i'}, body: c06V{'0', 'i'}, rcpt: map[int]c06V{}}
+			}
+		}
+	case x < 60:
+		w.org = answer()
+	default:
+		w.from = r.Pick("s", "d")[0]
+		w.sub = answer()
+		w.org = answer()
+	}
+	switch x := r.Intn(100); {
+	case x < 15:
+		w.align = 'a'
+	case x < 35:
+		w.align = 'm'
+	}
+	c.world = w
+	c.dmarc = w.outcome()
+}
+
+// c06AnswerClass: for the statistics.
+func c06AnswerClass(a string) string {
+	switch a {
+	case "=":
+		return "same-name"
+	case "-":
+		return "no-such-name"
+	case "0":
+		return "empty"
+	case "T":
+		return "temporary-failure"
+	}
+	pol, stray := 0, 0
+	for _, rec := range strings.Split(a, ".") {
+		if len(rec) == 2 {
+			pol++
+		} else {
+			stray++
+		}
+	}
+	switch {
+	case pol == 0:
+		return "stray-only"
+	case pol == 1 && stray == 0:
+		return "one-policy"
+	case pol == 1:
+		return "one-policy-among-stray"
+	}
+	return "several-policies"
+}
+
+// c06GenQueue: one or two targets of the case become REAL queues (kind q<n|r>: the recording
+// target - in 40% one that refuses quarantined messages, like target.remote - sits behind the
+// queue), the first one a target of the first recipient's block; in 70% a check applying to the
+// first recipient quarantines at a random one of the four stages.
+func c06GenQueue(r *vh.Rng, c *c06Case) {
+	if len(c.rcpts) == 0 || c.inner != nil {
+		return
+	}
+	blk := c.blocks[c.rcpts[0].blk]
+	t0 := blk.targets[r.Intn(len(blk.targets))]
+	c.tgts[t0] = "q" + c.tgts[t0][1:]
+	if r.Chance(40) {
+		c.tgts[t0] = "qr"
+	}
+	if r.Chance(30) {
+		t := r.Intn(len(c.tgts))
+		c.tgts[t] = "q" + c.tgts[t][1:]
+	}
+	if !r.Chance(70) {
+		return
+	}
+	app := append(append(append([]int(nil), c.global...), c.source...), blk.checks...)
+	if len(app) == 0 {
+		c.global = append(c.global, 0)
+		app = []int{0}
+	}
+	s := &c.scripts[app[r.Intn(len(app))]]
+	v := c06V{'1', 'q'}
+	switch r.Intn(4) {
+	case 0:
+		s.conn = v
+	case 1:
+		s.sender = v
+	case 2:
+		s.rcpt[c.rcpts[0].id] = v
+	default:
+		s.body = v
+	}
 }
 
 // c06GenNoMod: scopes without a `modify` directive (the empty modifier group) - destination blocks
